@@ -169,4 +169,24 @@ CHECKS = {
                 "cancel or add_done_callback call and a preemption",
         "assumptions": ["entry points not driven here (retry/poll/throttle futures) are covered by their own machines' protocol events"],
     },
+    "C09": {
+        "modules": ["p_c09", "p_c09f"],
+        "gen_lemmas": ["partition_jobs_spec", "partition_overdue", "partition_pending", "partition_complete",
+                       "wait_time_spec", "wait_time_le", "deadline_of_spec"],
+        "rule": "p_c09: seeded scenarios (1-5 submissions from 1-3 client threads at virtual times, default timeout and per-call "
+                "submit_timeout values incl. 0 and negative, delegate futures (environment) never completed / started / completed "
+                "with result or exception at deadline-3..deadline+3 / completed inline inside delegate.submit, 0-2 done-callbacks "
+                "(some raising) added early or late, client cancel() calls around the deadline) x {random, sticky, PCT} schedules; "
+                "every implementation history (incl. every clock read and the argument of every timed wait) is replayed event by "
+                "event on Model/Timeout.v (extracted); p_c09f: the same family through f_timeout() (shared weakly referenced "
+                "sync+flat_map+timeout executor), monitor only; distinct = distinct event traces; non-trivial = the job thread "
+                "made at least one cancel attempt and a preemption occurred",
+        "assumptions": ["delegate executor, completion of its futures, user callbacks and the clock are environment",
+                        "integer virtual time; a timed wait of 0 on the executor's event takes one tick (the real zero-wait busy loop "
+                        "`deadline < now` false / wait(0) terminates because the monotonic clock advances while it spins)",
+                        "no shutdown() and no garbage collection of the executor during a scenario; no nested submit from callbacks "
+                        "(the now re-entrant gate is modelled as a plain lock)",
+                        "'at the deadline' (cancel attempt no later than the first timer expiry after the deadline) is decided by the "
+                        "monitor on implementation histories; its safety skeleton is proved on the model"],
+    },
 }
